@@ -657,6 +657,10 @@ impl BasicPacker {
     }
 
     pub fn should_save(&self) -> bool {
+        #[cfg(feature = "verif")]
+        if crate::verif::limits::packer_max_count().is_some_and(|n| self.count as usize >= n) {
+            return true;
+        }
         let size_limit = self.pack_sizer.pack_size();
 
         // check if PackFile needs to be saved
@@ -761,6 +765,8 @@ impl BasicPacker {
     }
 
     pub fn has(&self, id: &BlobId) -> bool {
+        #[cfg(feature = "verif")]
+        crate::verif::point::hit("packer.has");
         self.index.blobs.iter().any(|b| &b.id == id)
     }
 }
@@ -787,6 +793,10 @@ impl<BE: DecryptWriteBackend> FileWriterHandle<BE> {
         self.be
             .write_bytes(FileType::Pack, &id, self.cacheable, file)?;
         index.time = Some(Timestamp::now());
+        #[cfg(feature = "verif")]
+        {
+            index.time = index.time.map(crate::verif::clock::adjust);
+        }
         Ok(index)
     }
 
